@@ -183,9 +183,25 @@ CLAIMS = [
                 'tensors (no operator contract for tf.ragged.map_flat_values over a Keras model). Bounded shapes.',
         'design_ref': 'DESIGN.md section 4 C14',
     },
+    {
+        'property_id': 'C08',
+        'level': 'other',
+        'technique': 'contract-based deductive verification: tf.while_loop fixpoint contract for "feasible => unchanged for every '
+                     'iteration count"; each real group step against the closed-form exact Euclidean projection (KKT form); '
+                     'loop body against the Dykstra recurrence with opaque group projections; z3/cvc5',
+        'text': 'Proved for all kernels per configuration: feasible kernels are fixed by project_by_dykstra and by the PWL '
+                'projection for every iteration count; every _project_partial_* step of the families the property calls '
+                '"nearest" is the exact Euclidean projection onto its group (range dominance: lands in its set and fixes '
+                'feasible kernels); the body is the Dykstra recurrence and the groups cover every constraint row. The limit '
+                'clauses (violation -> 0, limit = nearest point) are NOT decided: they follow by the cited Boyle-Dykstra theorem.',
+        'note': 'Trusted: operator contracts incl. the while_loop fixpoint contract, z3/cvc5, reals for floats; Boyle-Dykstra '
+                'theorem cited for convergence (not mechanised, no bounded stand-in built). Not covered: exactness of the PWL '
+                'bounds-with-monotonicity step. Bounded shapes.',
+        'design_ref': 'DESIGN.md section 4 C08',
+    },
 ]
 
 _PENDING = 'check not built yet in this session (planned, see DESIGN.md section 4); not claimed until its check exists'
 NOT_APPLICABLE = [
-    {'property_id': 'C%02d' % i, 'reason': _PENDING} for i in range(2, 21) if i not in (2, 4, 5, 6, 7, 9, 12, 13, 14, 15, 19, 20)
+    {'property_id': 'C%02d' % i, 'reason': _PENDING} for i in range(2, 21) if i not in (2, 4, 5, 6, 7, 8, 9, 12, 13, 14, 15, 19, 20)
 ]
